@@ -242,7 +242,7 @@ class PDFXRefFallback(PDFXRef):
             if isinstance(obj, PDFStream) and obj.get("Type") is LITERAL_OBJSTM:
                 stream = stream_value(obj)
                 try:
-                    n = stream["N"]
+                    n = int_value(stream["N"])
                 except KeyError:
                     if settings.STRICT:
                         raise PDFSyntaxError("N is not defined: %r" % stream)
@@ -280,12 +280,16 @@ class PDFXRefStream(PDFBaseXRef):
         (_, stream) = parser.nextobject()
         if not isinstance(stream, PDFStream) or stream.get("Type") is not LITERAL_XREF:
             raise PDFNoValidXRef("Invalid PDF stream spec.")
-        size = stream["Size"]
-        index_array = stream.get("Index", (0, size))
+        size = int_value(stream.get("Size"))
+        index_array = list_value(stream.get("Index", (0, size)))
         if len(index_array) % 2 != 0:
             raise PDFSyntaxError("Invalid index number")
+        index_array = [int_value(x) for x in index_array]
         self.ranges.extend(cast(Iterator[Tuple[int, int]], choplist(2, index_array)))
-        (self.fl1, self.fl2, self.fl3) = stream["W"]
+        field_widths = [int_value(x) for x in list_value(stream.get("W"))]
+        if len(field_widths) != 3 or min(field_widths) < 0:
+            raise PDFNoValidXRef("Invalid /W in cross-reference stream")
+        (self.fl1, self.fl2, self.fl3) = field_widths
         assert self.fl1 is not None and self.fl2 is not None and self.fl3 is not None
         self.data = stream.get_data()
         self.entlen = self.fl1 + self.fl2 + self.fl3
@@ -820,7 +824,7 @@ class PDFDocument:
             if settings.STRICT:
                 raise PDFSyntaxError("Not a stream object: %r" % stream)
         try:
-            n = cast(int, stream["N"])
+            n = int_value(stream["N"])
         except KeyError:
             if settings.STRICT:
                 raise PDFSyntaxError("N is not defined: %r" % stream)
